@@ -336,6 +336,17 @@ func init() {
 						cs = append(cs, fw.Case{ID: fmt.Sprintf("compiled/%s/tamper/%d", n, i), Kind: "compiled", P: map[string]any{"inst": n, "i": i}})
 					}
 				}
+				// another round's (valid) openings presented for round j, with a forged bit decomposition of
+				// challenge j: the queried index must be bound to the challenge
+				nsw := 8
+				if !ctx.Quick {
+					nsw = 120
+				}
+				for _, n := range instNames(ctx.Quick) {
+					for i := 0; i < nsw; i++ {
+						cs = append(cs, fw.Case{ID: fmt.Sprintf("roundswap/%s/%d", n, i), Kind: "roundswap", P: map[string]any{"inst": n, "i": i}})
+					}
+				}
 				// gnark's own test engine on tampered k=1 instances: its verdict must agree with the monitoring engine's
 				ng := 2
 				if !ctx.Quick {
@@ -454,6 +465,29 @@ func init() {
 					}
 					o.Inc("desc_rejected_" + d.What + "_" + res.Verdict.String())
 					o.Sample = map[string]any{"change": d.What, "i": d.I, "ref": trunc(refErr.Error(), 60), "verdict": resStr(res)}
+				case "roundswap":
+					rc, err := getRoundCtx(name)
+					if err != nil {
+						return fw.Inconcl(err.Error())
+					}
+					r := ctx.Rand(c.ID)
+					n := len(rc.in.PWI.Proof.OpeningProof.QueryRoundProofs)
+					j := r.Intn(n)
+					i := (j + 1 + r.Intn(n-1)) % n
+					lde := rc.refPrm.LdeBits()
+					idxI := rc.refCh.QueryIndicesRaw[i] % (1 << uint(lde))
+					idxJ := rc.refCh.QueryIndicesRaw[j] % (1 << uint(lde))
+					if idxI == idxJ {
+						return fw.Outcome{Trivial: true}
+					}
+					round := circ.DeepCopy(&rc.in.PWI.Proof.OpeningProof.QueryRoundProofs[i])
+					pol := idxPolicy{x: new(big.Int).SetUint64(rc.refCh.QueryIndicesRaw[j]), target: idxI, lde: lde}
+					res := rc.runRound(j, round, engine.Options{Face: face, Policy: pol})
+					if v, bad := mustReject(res, "roundswap"); bad {
+						return v
+					}
+					o.Inc("swapped_rounds_rejected")
+					o.Sample = map[string]any{"round": j, "openings_of_round": i, "index_j": idxJ, "index_i": idxI, "verdict": resStr(res)}
 				case "gnarkengine":
 					t := getInst(name).Restrict(1)
 					ls := c01Leaves(t)
